@@ -518,12 +518,13 @@ def execS (p : Prog) : Nat → Stmt → M Unit
           declStructInitVar const sd x vs
         | none => undefM
     | .assign lv e => do
-        let v ← evalE p fuel e
+        -- operands left to right: the target's index expressions, then the right-hand side
         let r ← evalLV p fuel lv
+        let v ← evalE p fuel e
         writeRef r v
     | .compound op lv e => do
-        let v ← evalE p fuel e
         let r ← evalLV p fuel lv
+        let v ← evalE p fuel e
         let old ← readRef r
         let nv ← liftRes (evalBin op old v)
         writeRef r nv
